@@ -23,7 +23,15 @@
                                     number of isolated points; no lower-dimensional part of r is
                                     covered twice or by a higher-dimensional part; canonical shape.
    (3) F20    the class predicate "some hole ring of an areal member of an operand meets the interior
-              of another areal member of the same operand" and the location of its symptom.
+              of another areal member of the same operand" and the location of its symptom; F20b, the
+              wider class found by the correspondence (two areal members of one operand with
+              intersecting interiors) with its symptom (the result is what the operation gives with
+              that operand's areal part absent).
+   (4) TRANSPORT  float64 bit patterns to exact dyadic rationals; snapping of a float result onto the
+              exact arrangement of the operands within a stated tolerance (snap_geom is the reference;
+              the driver chooses the candidate in float arithmetic and accepts it only by the exact
+              test dist2 <= tol^2); exact clearance of the operands' arrangement (admission of
+              general-position input).
 
    Incidence (Planar.v provides none; it is derived here from the same slab structure):
    - a slab witness on an edge piece (xm, y_j) is incident to the two trapezoids directly above and
@@ -578,6 +586,14 @@ Definition magnitude (gs : list geom) : Q :=
 Definition operand_segs (gs : list geom) : list seg := ctx_segs gs.
 Definition operand_vertices (gs : list geom) : list pt :=
   kdedup pt_key (ksort pt_key (map pt_red (vertex_set (ctx_segs gs) (ctx_pts gs)))).
+
+(* clearance of the arrangement of the operands (quantifier of C01 for general-position input):
+   every two distinct vertices, and every vertex and every segment not passing through it, are at
+   squared distance at least thr2 *)
+Definition seg_dist2 (s : seg) (p : pt) : Q := dist2 (seg_closest s p) p.
+Definition clearance_ok (thr2 : Q) (L : list seg) (V : list pt) : bool :=
+  forallb (fun v => forallb (fun s => on_seg s v || Qle_bool thr2 (seg_dist2 s v)) L
+                    && forallb (fun u => pt_eqb u v || Qle_bool thr2 (dist2 u v)) V) V.
 
 (* exact bounding box (None for an empty geometry) *)
 Definition bbox (g : geom) : option (Q * Q * Q * Q) :=
